@@ -20,11 +20,11 @@ EXPLANATION = (
 def run(ctx):
     repo = ctx.repo
     T = K.types(repo)
-    r04a(ctx, repo)
-    r04b(ctx, repo)
-    r04c(ctx, repo)
-    r04d(ctx, repo)
-    r04e(ctx, repo)
+    ctx.each(r04a, ctx, repo)
+    ctx.each(r04b, ctx, repo)
+    ctx.each(r04c, ctx, repo)
+    ctx.each(r04d, ctx, repo)
+    ctx.each(r04e, ctx, repo)
 
 
 def _junction_classes(repo):
